@@ -53,6 +53,12 @@ def use_repo_sources() -> None:
     if src not in sys.path:
         sys.path.insert(0, src)
     os.environ.setdefault(GUARD, "1")
+    try:  # a runaway case must not take the machine down: MemoryError instead
+        import resource
+        lim = 24 * 2 ** 30
+        resource.setrlimit(resource.RLIMIT_AS, (lim, lim))
+    except Exception:  # noqa: BLE001
+        pass
 
 
 class InfraError(Exception):
